@@ -3,6 +3,11 @@ import QF.Props.Tie
 namespace QF.Props.C15
 
 /-- T1: the functions this property's mirror model follows have today the source text the model was written against. -/
-theorem tie : Tie.sameAll ["qframe.QFrame.ToCSV", "qframe.QFrame.ToJSON", "qframe.QFrame.ToSQL", "io.ReadCSV", "sql.ReadSQL", "qframe.ReadSQLWithArgs", "fastcsv.eofReaderWrapper.Read", "fastcsv.bufferedReader.more"] = true := by decide
+-- Tie audit (bin/selftest-ties): the following functions are not compared as text any more; every behaviour-changing edit of
+-- them makes a `gen_*_canon` theorem of this property's modules fail, renaming their locals or reformatting them changes nothing:
+-- `QFrame.ToCSV`, `QFrame.ToJSON`: `Gen.toCsvAst` / `Gen.toJsonAst` (wast.go) + `Gen.guardAst2`, `C13WriterGen.gen_tocsv_canon` + `gen_tocsv_error`, `C14WriterGen.gen_tojson_canon` + `gen_tojson_fault`,
+-- `C10Guards.gen_guards2_canon`. `eofReaderWrapper.Read`, `bufferedReader.more`: `Gen.csvFns`, `C12CsvCanon.gen_csv_canon` + `C12CsvGen.gen_csv_wrapRead` / `gen_csv_more`.
+-- ToSQL is regenerated in `Gen.toSqlAst` (C19SqlWriteGen.gen_tosql_fault), ReadCSV's glue in `Gen.readCsvAst` (C12GlueGen.gen_csvglue_faults), ReadSQL in `Gen.readSqlAst` (C19ReadSqlGen.gen_readsql_faults).
+theorem tie : Tie.sameAll ["qframe.ReadSQLWithArgs"] = true := by decide
 
 end QF.Props.C15
